@@ -65,7 +65,7 @@ def z3_diff(name, new, base, timeout_s=150):
     return "unknown", None
 
 
-TYPES2 = {"u8": ("F8x3", 8, 3), "u16": ("F16x2", 16, 2), "u32": ("F32x3", 32, 3), "u64": ("F64x3", 64, 3), "u128": ("F128x2", 128, 2), "usize": ("FU64x2", 64, 2)}
+TYPES2 = {"u8": ("F8x3", 8, 3), "u16": ("F16x2", 16, 2), "u32": ("F32x3", 32, 3), "u64": ("F64x5", 64, 5), "u128": ("F128x2", 128, 2), "usize": ("FU64x2", 64, 2)}
 
 
 def api_lines(name, cex):
